@@ -173,9 +173,18 @@ def probing(R, P, fns):
                         return True  # an empty slot
                     if g[2] is not None and g[1] in ("<", ">"):
                         # the examined entry's own probe distance (computed from its hash code) against our probe counter
-                        def from_hash(n_):
+                        def from_hash(n_, depth=0):
                             o_ = RU.origin(f, n_)
-                            return o_ is not None and any(x["k"] == "member" and x["f"] == "hash_code" for x in f.walk(o_, follow_refs=True))
+                            if o_ is None or depth > 4:
+                                return False
+                            for x in f.walk(o_, follow_refs=True):
+                                if x["k"] == "member" and x["f"] == "hash_code":
+                                    return True
+                                if x["k"] == "var" and x is not o_:
+                                    y = RU.see_bound(f, x)  # a parameter of an expanded helper stands for its argument
+                                    if y is not None and y is not x and from_hash(y, depth + 1):
+                                        return True
+                            return False
 
                         def counter(n_):
                             v_ = RU.uncast(f, n_)
